@@ -215,7 +215,7 @@ class Gen:
             k = r.random()
             if k < 0.2:
                 a = r.choice([0, 1, 2, 5])
-                return "%d..%d" % (a, a + r.choice([0, 1, 3, 6])) if r.random() < 0.8 else "(%s..%s)" % (r.choice(["0", "1", "len(Tags)", "3"]), r.choice(["2", "5", "len(Name)", "0"]))
+                return "(%d..%d)" % (a, a + r.choice([0, 1, 3, 6])) if r.random() < 0.8 else "(%s..%s)" % (r.choice(["0", "1", "len(Tags)", "3"]), r.choice(["2", "5", "len(Name)", "0"]))
             if k < 0.55 and self.use_calls:
                 return r.choice(["sort(%s)" % self.expr("arr", d), "reverse(%s)" % self.expr("arr", d),
                                  "split(%s, %s)" % (self.expr("str", d), self.atom("str")),
